@@ -346,7 +346,102 @@ def _readback(case, post, hcase, ds, viol, lab, n_runs, n_draws):
                 return
 
 
-WORKERS = {'initial': w_initial, 'format': w_format}
+def w_param_map(case):
+    """PosteriorPredictiveModel with a parameter map: every model parameter reads
+    the dataset variable it is mapped to (unmapped ones the variable of their own
+    name), also when maps swap or shift names among the model's own names."""
+    import xarray as xr
+    from ..env.rngseam import Seam, Script
+    viol = []
+    pm = c15.pred_model(3)
+    dvars = ['q0', 'q1', 'q2', 'a', 'b'] + pm.get_parameter_names()[3:]
+    data = {}
+    for k, v in enumerate(dvars):
+        data[v] = (('chain', 'draw', 'individual'),
+                   np.full((1, 1, 1), 100.0 * (k + 1)))
+    ds = xr.Dataset(data, coords={'chain': [0], 'draw': [0], 'individual': ['x']})
+    pmap = dict(case['map'])
+    ppm = chi.PosteriorPredictiveModel(pm, ds, param_map=dict(pmap))
+
+    def base(stream, index, kind, n=None):
+        return 0.0 if kind == 'z' else (0.5 if kind == 'u' else 0)
+    with Seam(Script(base=base)):
+        df = ppm.sample([1.0], n_samples=1, individual='x', seed=3)
+    got = {}
+    for j in range(3):
+        v = float(df[df['Observable'] == 'r%d' % j]['Value'].iloc[0]) / c15.tf(1.0)
+        got['q%d' % j] = dvars[int(round(v / 100.0)) - 1]
+    want = {'q%d' % j: pmap.get('q%d' % j, 'q%d' % j) for j in range(3)}
+    if got != want:
+        viol.append({'sub': 'param_map', 'message': 'posterior predictive model '
+                     'with param_map %s does not read every model parameter from '
+                     'the dataset variable it is mapped to' % pmap,
+                     'expected': want, 'observed': got, 'behaviour': 'param_map'})
+    return {'transitions': 2, 'outcome': key_of([sorted(pmap.items()), got]),
+            'violations': viol}
+
+
+def w_opt_failures(case):
+    """Optimisation runs that break: their rows hold NaN, the other rows pair the
+    estimates with name, ID, score and run."""
+    viol = []
+    post, hcase = build_posterior(case)
+    n = post.n_parameters()
+    fails = case['fails']
+    n_runs = len(fails)
+    orig = pints.OptimisationController.run
+    count = [0]
+
+    def run(ctrl):
+        r = count[0]
+        count[0] += 1
+        if fails[r]:
+            raise np.linalg.LinAlgError('injected failure of run %d' % r)
+        return 1000.0 * (r + 1) + np.arange(n), -(r + 1.0)
+    pints.OptimisationController.run = run
+    try:
+        oc = chi.OptimisationController(post, seed=1)
+        oc.set_n_runs(n_runs)
+        oc.set_parallel_evaluation(False)
+        table = oc.run(n_max_iterations=3).reset_index(drop=True)
+    finally:
+        pints.OptimisationController.run = orig
+    names = list(post.get_parameter_names())
+    if len(table) != n * n_runs:
+        viol.append({'sub': 'fail_len', 'message': 'optimisation table does not have '
+                     'one row per parameter and run when runs break',
+                     'expected': n * n_runs, 'observed': len(table),
+                     'behaviour': 'opt_fail_len'})
+    else:
+        for r in range(n_runs):
+            for p_ in range(n):
+                row = table.iloc[r * n + p_]
+                est, sc = float(row['Estimate']), float(row['Score'])
+                if fails[r]:
+                    ok = est != est and sc != sc
+                    want = ('nan', 'nan')
+                else:
+                    ok = est == 1000.0 * (r + 1) + p_ and sc == -(r + 1.0)
+                    want = (1000.0 * (r + 1) + p_, -(r + 1.0))
+                ok = ok and row['Parameter'] == names[p_] and int(row['Run']) == r + 1
+                if not ok:
+                    viol.append({'sub': 'fail_row', 'message': 'optimisation table '
+                                 'with failure pattern %s: run %d does not hold its '
+                                 'own estimates / NaN for a broken run'
+                                 % (fails, r + 1), 'expected': want,
+                                 'observed': (est, sc, row['Parameter'],
+                                              int(row['Run'])),
+                                 'behaviour': 'opt_fail_row'})
+                    break
+            else:
+                continue
+            break
+    return {'transitions': n_runs + 2, 'outcome': key_of([case['kind'], fails]),
+            'violations': viol}
+
+
+WORKERS = {'initial': w_initial, 'format': w_format, 'param_map': w_param_map,
+           'opt_failures': w_opt_failures}
 
 
 def build(tier, seed):
@@ -391,8 +486,33 @@ def build(tier, seed):
         for n_draws in (1, 2, 3):
             fmt.append({'kind': 'individual', 'id': 'x7', 'n_runs': n_runs,
                         'n_draws': n_draws})
+    # parameter maps: every injective assignment of the three mechanistic names to
+    # dataset variables (their own names included: swaps, shifts, cycles)
+    pmaps = []
+    targets = ['q0', 'q1', 'q2', 'a', 'b']
+    for choice in itertools.product([None] + targets, repeat=3):
+        final = [c if c is not None else 'q%d' % j for j, c in enumerate(choice)]
+        if len(set(final)) != 3:
+            continue
+        items = [['q%d' % j, c] for j, c in enumerate(choice) if c is not None]
+        for order in (items, items[::-1]):
+            pmaps.append({'map': order})
+            if len(items) < 2:
+                break
+    optf = []
+    hc2 = hier.make_case(rp.Comp([rp.G(1), rp.P(1), rp.LN(1, False)]), 2, seed)
+    for n_runs in (1, 2, 3, 4):
+        for fails in itertools.product([False, True], repeat=n_runs):
+            optf.append({'kind': 'individual', 'fails': list(fails)})
+            optf.append({'kind': 'hier', 'hcase': hc2, 'fails': list(fails)})
     return {
         'parts': [
+            Part('param_map', pmaps, w_param_map,
+                 'PosteriorPredictiveModel: every injective parameter map of three '
+                 'model names into five dataset variables, both dictionary orders'),
+            Part('opt_failures', optf, w_opt_failures,
+                 'optimisation tables under every pattern of breaking runs '
+                 '(<= 4 runs)'),
             Part('initial', init, w_initial,
                  'sample_initial_parameters over the composition space'),
             Part('format', fmt, w_format,
